@@ -203,14 +203,14 @@ Proof. vm_compute. reflexivity. Qed.
 
 (* ---- the refuted full statements (recorded findings) ------------------------------------------------ *)
 Definition rec_live : live_frame := mkLive [114;46;112;121] 7 [102] [32;32;102;40;41;10].
-Definition rec_exc : live_exc := mkExc L_builtins [69] [69] (Some []) [69].
+Definition rec_exc : live_exc := mkExc (Some L_builtins) [69] [69] (Some []) [69].
 
 (* the recorded reason on the formatting side: a display-time suggestion *)
 Definition hint_exc : live_exc :=      (* AttributeError: no attribute 'bluch'. Did you mean: 'blech'? *)
-  mkExc L_builtins [65;69] [65;69] (Some [110;111;32;98;108;117;99;104])
+  mkExc (Some L_builtins) [65;69] [65;69] (Some [110;111;32;98;108;117;99;104])
         ([65;69] ++ L_colon ++ [110;111;32;98;108;117;99;104] ++ L_hint ++ [39;98;108;101;99;104;39;63]).
 Definition nostr_exc : live_exc :=     (* class Bad whose __str__ raises *)
-  mkExc L_builtins [66;97;100] [66;97;100] None ([66;97;100] ++ L_colon ++ L_str_failed).
+  mkExc (Some L_builtins) [66;97;100] [66;97;100] None ([66;97;100] ++ L_colon ++ L_str_failed).
 
 Lemma format_refuted_hint :
   exists fs e, hint_of e <> None /\
@@ -260,4 +260,4 @@ Definition live_fs : list live_frame :=
     mkLive (s2l "<gen1>") 2 (s2l "c1") [];
     mkLive (s2l "/tmp/my dir/ma.py") 31 (s2l "meth") ([9] ++ s2l "raise Outer.Err('a: b')  " ++ [10]) ].
 Definition live_e : live_exc :=
-  mkExc (s2l "ma") (s2l "Outer.Err") (s2l "Err") (Some (s2l "a: b")) (s2l "ma.Outer.Err: a: b").
+  mkExc (Some (s2l "ma")) (s2l "Outer.Err") (s2l "Err") (Some (s2l "a: b")) (s2l "ma.Outer.Err: a: b").
